@@ -4,6 +4,8 @@ JOBS = [
 ] + [
     Job('bfd.s3.shrink%d' % k, 'C06/buffered_fd.cpp', 'h_bfd', 'B', defs={'NSTEP': 3, 'SHRINK_AT': k}, reach=['bfd'], timeout=1700, clause='buffered fd: 3 symbolic steps over {send 1-3 bytes, enable, writable, readable, peer writes 1-3 bytes, peer close}; kernel accepts/delivers arbitrary prefixes; shrinkSendBuffer/shrinkRecvBuffer ' + ('after step %d' % (k + 1) if k < 3 else 'never')) for k in range(4)
 ] + [
+    Job('bfd.rxstate.s3', 'C06/buffered_fd.cpp', 'h_bfd', 'B', defs={'NSTEP': 3, 'RXONLY': None, 'SHRINK_AT': 3, 'RXSTATE': 4}, reach=['bfd'], timeout=1700, clause='receive side from an ARBITRARY valid state of the receive queue (capacity 4, any read/write index agreeing with the ghost stream): 3 symbolic steps over {readable, peer writes 1-3 bytes, peer close} - growth and compaction with a non-zero read index'),
+    Job('bfd.rx.s5', 'C06/buffered_fd.cpp', 'h_bfd', 'B', defs={'NSTEP': 5, 'RXONLY': None, 'SHRINK_AT': 5}, reach=['bfd'], timeout=3400, tier='thorough', clause='receive side only, enabled from the start: 5 symbolic steps over {readable, peer writes 1-3 bytes, peer close}, threshold and consumption symbolic (partial consumption followed by more data = compaction / growth of the receive queue)'),
     Job('bfd.s4', 'C06/buffered_fd.cpp', 'h_bfd', 'B', defs={'NSTEP': 4}, reach=['bfd'], timeout=3400, tier='thorough', clause='same with 4 steps'),
 ]
 META = dict(
